@@ -38,6 +38,33 @@ CLAIMED = {
         "Petri nets natively (MC_Petri: non-negativity, state equation, agreement lemma).",
    ref="DESIGN.md §3 C20",
    technique="TLA+ Petri-net state machine model-checked by TLC + TLC judging recorded outputs/certificates of the real code"),
+ "C06": dict(
+   text="TLC enumerates all labelled graphs up to isomorphism (GraphGen: <=3 nodes over 2 elements x hcount{0,1} x 2 bond orders; 4 and 5-node hosts "
+        "over reduced alphabets); every (pattern, host) pair is realised as networkx objects with random node ids/insertion orders and searched with "
+        "strategies all/comp/bt, strict on/off, pre_filter, max_results 1/2, threshold 1/3; TLC judges each returned list against LGraph!Monos / "
+        "CompMonos / BtMonos (exact sets, duplicates, truncation and threshold rules, inputs unchanged); plus random hosts <=9 nodes with planted patterns.",
+   ref="DESIGN.md §3 C06",
+   technique="TLA+ theory of labelled-graph monomorphisms + TLC-enumerated graphs replayed into the code + TLC judging recorded results"),
+ "C12": dict(
+   text="All pairs of TLC-enumerated labelled graphs <=3 nodes (thorough: exhaustive; quick: sample), pairs with 4-node graphs and random pairs up to 6x7 "
+        "with planted common parts are given to both MCSMatcher implementations; TLC verifies every returned mapping (injective, labels, bonds and orders "
+        "both ways), recomputes the maximum common induced subgraph size by back-tracking (LGraph!MCSSize) and checks that the two directions are inverse.",
+   ref="DESIGN.md §3 C12",
+   technique="TLA+ theory (common induced subgraphs) + TLC-enumerated graphs replayed into the code + TLC judging recorded mappings"),
+ "C13": dict(
+   text="Cluster.tla models incremental classification against a library as a state machine; TLC checks PartitionOK over all arrival histories (3 classes, "
+        "8 initial libraries incl. pruned/non-contiguous ids) and exports every history; each is replayed into GraphCluster.fit and BatchCluster.fit/cluster/"
+        "lib_check (batch sizes 1,2,all) with concrete look-alike graphs (one bond order / one charge changed, relabelled copies) and TLC judges "
+        "'same class <=> isomorphic' with its own isomorphism search; plus longer random multisets.",
+   ref="DESIGN.md §3 C13",
+   technique="TLA+ state machine model-checked by TLC; TLC-generated histories replayed into the code; TLC judges the recorded partitions"),
+ "C16": dict(
+   text="TLC enumerates all networks over 3 species with <=2 (possibly repeated) reactions and coefficients 0..2 (quick 0..1) plus all single reactions with "
+        "coefficients 0..3; exports/imports through the bipartite graph (string/integer ids, with/without edge ids, mol labels, custom prefixes), reaction "
+        "strings and the species graph are recorded from the real code and judged by TLC against the TLA+ definition of the views (exact arc set, ids, rules, "
+        "coefficients, mol labels; bag equality where ids are not claimed); plus random networks up to 8 species / 10 reactions with multi-digit coefficients.",
+   ref="DESIGN.md §3 C16",
+   technique="TLA+ theory of network views + TLC-enumerated networks replayed into the code + TLC judging recorded round trips"),
 }
 
 NOT_YET = "check not built yet (work in progress; planned with the same TLA+/TLC technique, see DESIGN.md §3)"
